@@ -1,16 +1,28 @@
 # C05 — register allocation: the kernels (lemmas) the pass's correctness rests on
 UNITS = [
     Unit('spans', harness=['h_spans.cpp'], repo_units=['asmjit/support/arenavector.cpp']),
+    Unit('assign', harness=['h_assign.cpp'], repo_units=[]),
+    Unit('stack', harness=['h_stack.cpp'], repo_units=['asmjit/core/rastack.cpp', 'asmjit/support/arenavector.cpp']),
+    Unit('defs', harness=['h_defs.cpp'], repo_units=[]),
+    Unit('decide', harness=['h_decide.cpp'], repo_units=['asmjit/core/ralocal.cpp']),
 ]
 HARNESSES = [
     Harness('spans', 'h_spans_union_%d_%d_d%d' % (nx, ny, d), unwind=8, mem_gb=8, timeout=600,
             bounds='x: %d spans, y: %d spans, all endpoints symbolic 32-bit' % (nx, ny))
     for nx, ny, d in ((0, 0, 1), (0, 3, 0), (3, 0, 2), (1, 1, 0), (1, 3, 1), (3, 1, 2), (2, 2, 2), (2, 3, 0), (3, 2, 1), (3, 3, 0), (3, 3, 1), (3, 3, 2))
 ] + [
-    Harness('spans', 'h_spans_union_weak_3_3', unwind=8, mem_gb=8, timeout=600, bounds=''),
-    Harness('spans', 'h_spans_union_weak_2_3', unwind=8, mem_gb=8, timeout=600, bounds=''),
+    Harness('spans', 'h_spans_union_loose_3_3', unwind=8, mem_gb=8, timeout=600, bounds=''),
+    Harness('spans', 'h_spans_union_loose_2_3', unwind=8, mem_gb=8, timeout=600, bounds=''),
     Harness('spans', 'h_spans_intersects', unwind=8, mem_gb=8, timeout=600, bounds=''),
     Harness('spans', 'h_spans_open_close', unwind=8, mem_gb=8, timeout=600, bounds=''),
+] + [
+    Harness('assign', 'h_assign_' + op, unwind=17, mem_gb=4, timeout=600, bounds='') for op in ('assign', 'unassign', 'reassign', 'swap', 'clean', 'dirty', 'copy', 'maps')
+] + [
+    Harness('stack', 'h_stack_' + nm, unwind=9, mem_gb=4, timeout=600, bounds='') for nm in ('frame_k1', 'frame_k2', 'frame_k3', 'frame_k4', 'adjust', 'new_slot', 'chain_k2', 'chain_k3')
+] + [
+    Harness('defs', 'h_defs_' + nm, unwind=6, mem_gb=2, timeout=300, bounds='') for nm in ('regcount', 'regmask', 'tied')
+] + [
+    Harness('decide', 'h_decide_' + nm, unwind=17, mem_gb=4, timeout=600, bounds='') for nm in ('assignment', 'reassignment', 'spill')
 ]
 EXPLANATION = 'wip'
 OUTSIDE = []
